@@ -281,6 +281,7 @@ pub struct Cmp {
     pub n0: usize,   // pixels that differ at all
     pub n1: usize,   // pixels with a channel delta > 1
     pub n8: usize,   // pixels with a channel delta > 8
+    pub n64: usize,  // pixels with a channel delta > 64
     pub max: u8,
     pub nonblank: usize,
     pub first: Option<(u32, u32)>,
@@ -288,7 +289,7 @@ pub struct Cmp {
 }
 
 pub fn cmp_pixmaps(a: &tiny_skia::Pixmap, b: &tiny_skia::Pixmap) -> Cmp {
-    let mut c = Cmp { n0: 0, n1: 0, n8: 0, max: 0, nonblank: 0, first: None, dbox: (u32::MAX, u32::MAX, 0, 0) };
+    let mut c = Cmp { n0: 0, n1: 0, n8: 0, n64: 0, max: 0, nonblank: 0, first: None, dbox: (u32::MAX, u32::MAX, 0, 0) };
     let w = a.width();
     for (i, (pa, pb)) in a.data().chunks_exact(4).zip(b.data().chunks_exact(4)).enumerate() {
         if pa[3] != 0 || pb[3] != 0 {
@@ -311,6 +312,9 @@ pub fn cmp_pixmaps(a: &tiny_skia::Pixmap, b: &tiny_skia::Pixmap) -> Cmp {
         }
         if d > 8 {
             c.n8 += 1;
+        }
+        if d > 64 {
+            c.n64 += 1;
         }
         c.max = c.max.max(d);
     }
@@ -372,8 +376,8 @@ fn op_iso(payload: &str) -> String {
     let (pb, eb) = traced_render(&tb, v.w, v.h, v.ts).unwrap();
     let c = cmp_pixmaps(&pa, &pb);
     let mut out = format!(
-        "{{\"n0\":{},\"n1\":{},\"n8\":{},\"max\":{},\"nonblank\":{},\"layersA\":{},\"layersB\":{},\"groups\":{},\"W\":{},\"H\":{},\"crossing\":{},\"ts\":[{},{},{},{},{},{}]",
-        c.n0, c.n1, c.n8, c.max, c.nonblank, count_layers(&ea), count_layers(&eb), ngroups, v.w, v.h, v.crossing,
+        "{{\"n0\":{},\"n1\":{},\"n8\":{},\"n64\":{},\"max\":{},\"nonblank\":{},\"layersA\":{},\"layersB\":{},\"groups\":{},\"W\":{},\"H\":{},\"crossing\":{},\"ts\":[{},{},{},{},{},{}]",
+        c.n0, c.n1, c.n8, c.n64, c.max, c.nonblank, count_layers(&ea), count_layers(&eb), ngroups, v.w, v.h, v.crossing,
         v.ts.sx, v.ts.ky, v.ts.kx, v.ts.sy, v.ts.tx, v.ts.ty
     );
     if let Some((x, y)) = c.first {
